@@ -198,6 +198,8 @@ func c12(c *h.Ctx) {
 			}
 		}
 	})
+	// Run and Cancel released together, many rounds (check-then-act windows of a few instructions)
+	runWorkers(c, workerOpts{Mode: "cancelrace", Shards: 8, Timeout: 10 * time.Minute})
 	// free-running variant under the race detector: seeded cancel times, no hooks
 	nfree := c.N(40, 600)
 	h.Par(nfree, 8, func(i int) {
